@@ -130,17 +130,22 @@ pub fn emit(kind: u32, a: u64, b: u64, c: u64, d: u64) {
     let cap = ring.slots.len() as u64;
     let seq = NEXT.fetch_add(1, Ordering::SeqCst);
     // Wait (bounded) for the reader to free the slot; drop the event if it does not.
+    // (Back-pressure: the writer waits up to about 20 s for a reader that has fallen behind.)
     let mut spins = 0u32;
     while seq >= READ.load(Ordering::Acquire) + cap {
         spins += 1;
-        if spins > 2000 {
+        if spins > 200_000 {
             TRUNCATED.store(true, Ordering::SeqCst);
             DROPPED.fetch_add(1, Ordering::SeqCst);
             // The reader skips sequence numbers whose slot never gets stamped only through
             // `truncated`; mark the slot as a dropped one.
             return;
         }
-        std::thread::yield_now();
+        if spins < 2000 {
+            std::thread::yield_now();
+        } else {
+            std::thread::sleep(std::time::Duration::from_micros(100));
+        }
     }
     let slot = &ring.slots[(seq % cap) as usize];
     slot.thread.store(thread_id(), Ordering::Relaxed);
